@@ -776,14 +776,14 @@ func TestC10RangeBoundaryCorpus(t *testing.T) {
 		vlib.Report(t, ev, "range", RangeCase{Note: "building the boundary corpus"}, f)
 		return
 	}
-	vlib.Check(t, 2500, 30000, func(rt *rapid.T) {
+	vlib.Check(t, 2500, 25000, func(rt *rapid.T) {
 		kind := rapid.SampledFrom([]string{"num", "date"}).Draw(rt, "kind")
 		runRangeCase(rt, genRangeEnds(rt, kind))
 	})
 }
 
 func TestC10RangeFreshIndex(t *testing.T) {
-	vlib.Check(t, 600, 6000, func(rt *rapid.T) {
+	vlib.Check(t, 600, 5000, func(rt *rapid.T) {
 		kind := rapid.SampledFrom([]string{"num", "date"}).Draw(rt, "kind")
 		c := genRangeEnds(rt, kind)
 		c.Docs = genFreshDocs(rt, c)
